@@ -36,6 +36,10 @@ def execute(case):
         out["ne_ab"] = bool(xa != xb)
         out["eq_aa"] = bool(xa == xa)
         out["eq_copy"] = bool(copy.deepcopy(xa) == xa) and bool(xa == copy.deepcopy(xa))
+        # the owner-less copy of a fiber (what a tensor makes of a root that already belongs to another tensor) is a copy like any other
+        for pres in (True, False):
+            c2 = ra.copy(preserve_owner=pres)
+            out["eq_copy"] = out["eq_copy"] and bool(c2 == ra) and bool(ra == c2) and int(c2.countValues()) == int(ra.countValues()) and bool(c2.isEmpty()) == bool(ra.isEmpty())
         out["eq_bc"] = bool(xb == xc)
         out["eq_ac"] = bool(xa == xc)
         out["empty_a"] = bool(ra.isEmpty())
